@@ -133,3 +133,5 @@ pub fn stub_fs_remove_file<P: AsRef<std::path::Path>>(_p: P) -> std::io::Result<
 pub fn stub_fs_create_dir_all<P: AsRef<std::path::Path>>(_p: P) -> std::io::Result<()> {
     Ok(())
 }
+/// `std::io::_print` (println! in role transitions): output is not the subject.
+pub fn stub_print(_a: std::fmt::Arguments<'_>) {}
